@@ -277,3 +277,15 @@ func (f *Flat) SnapNorm(m protoreflect.Message, norm bool) string {
 	defer func() { f.normUnknown = false }()
 	return f.Snap(m)
 }
+
+// normSnapUnknown rewrites every unknown-field token ("u <hex>") of a snapshot string with minimal tag varints
+// (model answers are strings; the token "u" occurs only as the unknown-fields marker).
+func normSnapUnknown(snap string) string {
+	toks := strings.Split(snap, " ")
+	for i := 0; i+1 < len(toks); i++ {
+		if toks[i] == "u" && toks[i+1] != "-" && toks[i+1] != ")" {
+			toks[i+1] = vh.Hex(minimalTags(vh.UnHex(toks[i+1])))
+		}
+	}
+	return strings.Join(toks, " ")
+}
